@@ -161,6 +161,22 @@ def r2_one_pass_per_submodel(R) -> None:
 
 def r3_convergence(R, sh: SolverShape) -> None:
     check_convergence(R, sh)
+    # what is compared is the state after the *whole* pass: pre-hook, submodel passes and post-hook
+    from rules.solver_common import value_roles as _roles
+    try:
+        cur_, _p = _roles(sh)
+        after = sh.calls_self('evaluate_t_after')
+        rereads = [n for n in sh.cfg.nodes if n.kind == 'stmt' and isinstance(n.ast, ast.Assign) and len(n.ast.targets) == 1 and text(n.ast.targets[0]) == cur_ and sh.in_loop(n)]
+        conv_, _x = sh.convergence_node()
+        if after and rereads:
+            # the definition of the current values that reaches the convergence test was read after the post-hook
+            reaching = [n for n in rereads if n.id in sh.lf.defs_reaching(conv_.id, cur_)]
+            ok = bool(reaching) and all(after[0].id in sh.dom[n.id] for n in reaching)
+            R.check(ok, sh.q, 'reread-after-post-hook', 'the values tested for convergence are read after evaluate_t_after()',
+                    f'`{cur_}` as tested for convergence is read before self.evaluate_t_after(): what the post-hook writes in the final pass is never compared',
+                    where=sh.where(reaching[0] if reaching else rereads[0]))
+    except AnchorMissing:
+        pass
     c02.r3_loop_bounds(R, sh)
     c02.r4_min_iter_gate(R, sh)
     # coverage of the check values
